@@ -322,14 +322,14 @@ pub fn build<'a, C: Consumer<'a>>(arena: &'a Arena, kind: &str, calls: &[Value],
                 b = match call_name(c) {
                     "padding" => b.padding(u8_of(&c["v"])),
                     "subtype" => b.subtype(u8_of(&c["v"])),
-                    "data" => b.data(arena.b(&c["v"])),
+                    "data" => b.data(arena.b(c.get("big").unwrap_or(&c["v"]))),
                     other => tool_error(&format!("app call {other}")),
                 };
             }
             finish!(b, pb, c)
         }
         "unk" => {
-            let data = arena.b(&new["data"]);
+            let data = arena.b(new.get("big").unwrap_or(&new["data"]));
             let ty = u8_of(&new["type"]);
             let mut b = if new.get("via").and_then(|x| x.as_str()) == Some("new") {
                 UnknownBuilder::new(ty, data)
